@@ -78,8 +78,11 @@ func init() {
 			}
 			return c20In{Src: gen.CleanList(r, 2, 7), Mode: "tokens"}
 		},
-		Check:       c20Check,
-		Floor:       func(tier string) int { return 20000 },
+		Check: c20Check,
+		Floor: func(tier string) int { return 20000 },
+		CounterFloors: func(tier string) map[string]int64 {
+			return map[string]int64{"rules_roundtripped": 8000, "rules_roundtripped_comments_skipped": 4000, "decls_roundtripped": 7000, "preludes_equivalent": 2500}
+		},
 		Assumptions: []string{"the first tokenization L is webrender's own (pure round-trip relation, no reference tokenizer)", "inputs are valid UTF-8", "lists with parse-error tokens or EOF-flagged strings/urls are outside the property and skipped"},
 		Batch:       5000,
 	})
@@ -122,13 +125,16 @@ func c20Selector(r *rand.Rand) string {
 
 func c20RuleText(r *rand.Rand) string {
 	prelude := gen.CleanList(r, 1, 4)
+	// the joint between an at-keyword and its prelude, and between prelude and block: a space, nothing,
+	// or only a comment (which disappears when the sheet is parsed with comments skipped)
+	joint := func() string { return gen.Pick(r, []string{" ", " ", "", "/**/", "/* c */", " /**/ "}) }
 	switch r.Intn(4) {
 	case 0:
-		return "@" + gen.EscIdent(r, []rune(gen.Pick(r, []string{"media", "x", "-y", "1z"}))) + " " + prelude + ";"
+		return "@" + gen.EscIdent(r, []rune(gen.Pick(r, []string{"media", "x", "-y", "1z"}))) + joint() + prelude + joint() + ";"
 	case 1:
-		return "@" + gen.EscIdent(r, []rune(gen.Pick(r, []string{"media", "x", "page"}))) + " " + prelude + "{" + gen.CleanList(r, 1, 4) + "}"
+		return "@" + gen.EscIdent(r, []rune(gen.Pick(r, []string{"media", "x", "page"}))) + joint() + prelude + joint() + "{" + gen.CleanList(r, 1, 4) + "}"
 	}
-	return prelude + "{" + gen.CleanList(r, 1, 5) + "}"
+	return prelude + joint() + "{" + gen.CleanList(r, 1, 5) + "}"
 }
 
 var c20opt = csscmp.Options{DropComments: true, MergeWS: true}
@@ -170,65 +176,74 @@ func c20Check(raw json.RawMessage) fw.Result {
 		csscmp.Count(cl, func(t csscmp.Tok) { n++; res.Count("tok_"+t.K, 1) })
 		res.Nontrivial = n >= 2
 	case "rules":
-		rules := parser.ParseStylesheetBytes([]byte(in.Src), false, false)
-		for _, ru := range rules {
-			var ser string
-			var pre, content []parser.Token
-			hasContent := false
-			name := ""
-			switch v := ru.(type) {
-			case parser.QualifiedRule:
-				ser = serializeCompound(v)
-				pre, content, hasContent = v.Prelude, v.Content, true
-			case parser.AtRule:
-				ser = serializeCompound(v)
-				pre, content, hasContent, name = v.Prelude, v.Content, v.Content != nil, v.AtKeyword
-			default:
-				continue
+		for _, skipComments := range []bool{false, true} {
+			rules := parser.ParseStylesheetBytes([]byte(in.Src), skipComments, false)
+			variant := ""
+			if skipComments {
+				variant = " (comments skipped)"
 			}
-			if csscmp.HasError(csscmp.From(pre, c20opt)) || csscmp.HasError(csscmp.From(content, c20opt)) {
-				res.Count("skipped_error_lists", 1)
-				continue
-			}
-			back := parser.ParseStylesheetBytes([]byte(ser), false, false)
-			var sig []parser.Compound
-			for _, b := range back {
-				switch b.(type) {
-				case parser.Whitespace, parser.Comment:
+			for _, ru := range rules {
+				var ser string
+				var pre, content []parser.Token
+				hasContent := false
+				name := ""
+				switch v := ru.(type) {
+				case parser.QualifiedRule:
+					ser = serializeCompound(v)
+					pre, content, hasContent = v.Prelude, v.Content, true
+				case parser.AtRule:
+					ser = serializeCompound(v)
+					pre, content, hasContent, name = v.Prelude, v.Content, v.Content != nil, v.AtKeyword
 				default:
-					sig = append(sig, b)
+					continue
 				}
+				if csscmp.HasError(csscmp.From(pre, c20opt)) || csscmp.HasError(csscmp.From(content, c20opt)) {
+					res.Count("skipped_error_lists", 1)
+					continue
+				}
+				back := parser.ParseStylesheetBytes([]byte(ser), skipComments, false)
+				var sig []parser.Compound
+				for _, b := range back {
+					switch b.(type) {
+					case parser.Whitespace, parser.Comment:
+					default:
+						sig = append(sig, b)
+					}
+				}
+				if len(sig) != 1 {
+					res.Fail("roundtrip-rule", fmt.Sprintf("rule"+variant+" from %q serialized to %q re-parses to %d rules", in.Src, ser, len(sig)))
+					return res
+				}
+				var pre2, content2 []parser.Token
+				has2 := false
+				name2 := ""
+				switch v := sig[0].(type) {
+				case parser.QualifiedRule:
+					pre2, content2, has2 = v.Prelude, v.Content, true
+				case parser.AtRule:
+					pre2, content2, has2, name2 = v.Prelude, v.Content, v.Content != nil, v.AtKeyword
+				default:
+					res.Fail("roundtrip-rule", fmt.Sprintf("rule"+variant+" from %q serialized to %q re-parses to %T", in.Src, ser, sig[0]))
+					return res
+				}
+				if name != name2 || hasContent != has2 {
+					res.Fail("roundtrip-rule", fmt.Sprintf("rule"+variant+" from %q serialized to %q: at-keyword %q/%q block %v/%v", in.Src, ser, name, name2, hasContent, has2))
+					return res
+				}
+				if d := csscmp.Diff(csscmp.From(pre, c20opt), csscmp.From(pre2, c20opt), "prelude"); d != "" {
+					res.Fail("roundtrip-rule", fmt.Sprintf("rule"+variant+" from %q serialized to %q: %s", in.Src, ser, d))
+					return res
+				}
+				if d := csscmp.Diff(csscmp.From(content, c20opt), csscmp.From(content2, c20opt), "content"); d != "" {
+					res.Fail("roundtrip-rule", fmt.Sprintf("rule"+variant+" from %q serialized to %q: %s", in.Src, ser, d))
+					return res
+				}
+				res.Count("rules_roundtripped", 1)
+				if skipComments {
+					res.Count("rules_roundtripped_comments_skipped", 1)
+				}
+				res.Nontrivial = true
 			}
-			if len(sig) != 1 {
-				res.Fail("roundtrip-rule", fmt.Sprintf("rule from %q serialized to %q re-parses to %d rules", in.Src, ser, len(sig)))
-				return res
-			}
-			var pre2, content2 []parser.Token
-			has2 := false
-			name2 := ""
-			switch v := sig[0].(type) {
-			case parser.QualifiedRule:
-				pre2, content2, has2 = v.Prelude, v.Content, true
-			case parser.AtRule:
-				pre2, content2, has2, name2 = v.Prelude, v.Content, v.Content != nil, v.AtKeyword
-			default:
-				res.Fail("roundtrip-rule", fmt.Sprintf("rule from %q serialized to %q re-parses to %T", in.Src, ser, sig[0]))
-				return res
-			}
-			if name != name2 || hasContent != has2 {
-				res.Fail("roundtrip-rule", fmt.Sprintf("rule from %q serialized to %q: at-keyword %q/%q block %v/%v", in.Src, ser, name, name2, hasContent, has2))
-				return res
-			}
-			if d := csscmp.Diff(csscmp.From(pre, c20opt), csscmp.From(pre2, c20opt), "prelude"); d != "" {
-				res.Fail("roundtrip-rule", fmt.Sprintf("rule from %q serialized to %q: %s", in.Src, ser, d))
-				return res
-			}
-			if d := csscmp.Diff(csscmp.From(content, c20opt), csscmp.From(content2, c20opt), "content"); d != "" {
-				res.Fail("roundtrip-rule", fmt.Sprintf("rule from %q serialized to %q: %s", in.Src, ser, d))
-				return res
-			}
-			res.Count("rules_roundtripped", 1)
-			res.Nontrivial = true
 		}
 	case "prelude":
 		rules := parser.ParseStylesheetBytes([]byte(in.Src+" {}"), false, false)
@@ -268,35 +283,53 @@ func c20Check(raw json.RawMessage) fw.Result {
 		res.Count("preludes_equivalent", 1)
 		res.Nontrivial = true
 	case "decl":
-		d := parser.ParseOneDeclaration(parser.Tokenize([]byte(in.Src), false))
+		for _, skipComments := range []bool{false, true} {
+			if r := c20Decl(in.Src, skipComments, &res); r {
+				return res
+			}
+		}
+	}
+	return res
+}
+
+// c20Decl round-trips one declaration; it reports true when the verdict is final.
+func c20Decl(src string, skipComments bool, resp *fw.Result) bool {
+	res := resp
+	in := struct{ Src string }{src}
+	{
+		d := parser.ParseOneDeclaration(parser.Tokenize([]byte(in.Src), skipComments))
 		decl, ok := d.(parser.Declaration)
 		if !ok {
-			res.Verdict = fw.Skip
-			return res
+			if !skipComments {
+				res.Verdict = fw.Skip
+			}
+			return true
 		}
 		if csscmp.HasError(csscmp.From(decl.Value, c20opt)) {
-			res.Verdict = fw.Skip
+			if !skipComments {
+				res.Verdict = fw.Skip
+			}
 			res.Count("skipped_error_lists", 1)
-			return res
+			return true
 		}
 		ser := serializeCompound(decl)
-		d2, ok := parser.ParseOneDeclaration(parser.Tokenize([]byte(ser), false)).(parser.Declaration)
+		d2, ok := parser.ParseOneDeclaration(parser.Tokenize([]byte(ser), skipComments)).(parser.Declaration)
 		if !ok {
 			res.Fail("roundtrip-decl", fmt.Sprintf("declaration from %q serialized to %q does not re-parse as a declaration", in.Src, ser))
-			return res
+			return true
 		}
 		if d2.Name != decl.Name || d2.Important != decl.Important {
 			res.Fail("roundtrip-decl", fmt.Sprintf("declaration from %q serialized to %q: name %q/%q important %v/%v", in.Src, ser, decl.Name, d2.Name, decl.Important, d2.Important))
-			return res
+			return true
 		}
 		if df := csscmp.Diff(csscmp.From(decl.Value, c20opt), csscmp.From(d2.Value, c20opt), "value"); df != "" {
 			res.Fail("roundtrip-decl", fmt.Sprintf("declaration from %q serialized to %q: %s", in.Src, ser, df))
-			return res
+			return true
 		}
 		res.Count("decls_roundtripped", 1)
 		res.Nontrivial = true
 	}
-	return res
+	return false
 }
 
 func serializeCompound(c parser.Compound) string {
